@@ -89,11 +89,11 @@ theorem litFrac_tv_truncated_r (r stp : Nat) (hr0 : 0 < r) (c : Cfg) (hr : c.man
   rw [hnum, hV]
   exact interval_tv_r r hr0 S n.mantissa (sig.length - stp) fl n.exponent n.explicitExp n.isNegative hS1 hS2 (by omega)
 
-/-- the value of a `Number` whose slices are plain digits: `S·r^E / r^fl` with `S` the value of the significant digits -/
-theorem litFrac_plain (r : Nat) (c : Cfg) (hr : c.mantissaRadix = r) (n : Number) (hs : PlainSlices c n) :
-    litFrac r r (numberLit c n) =
-      (ofDigits r (dv r (sigBytes n.integer n.fraction)) * r ^ n.explicitExp.toNat,
-        r ^ (n.fraction.getD []).length * r ^ (-n.explicitExp).toNat) := by
+/-- the value of a `Number` whose slices are plain digits: `S·b^E / r^fl` with `S` the value of the significant digits -/
+theorem litFrac_plain (r b : Nat) (c : Cfg) (hr : c.mantissaRadix = r) (n : Number) (hs : PlainSlices c n) :
+    litFrac r b (numberLit c n) =
+      (ofDigits r (dv r (sigBytes n.integer n.fraction)) * b ^ n.explicitExp.toNat,
+        r ^ (n.fraction.getD []).length * b ^ (-n.explicitExp).toNat) := by
   obtain ⟨z, hz⟩ := sig_decomp n.integer n.fraction
   have hD : ofDigits r ((numberLit c n).intDigits ++ (numberLit c n).fracDigits) =
       ofDigits r (dv r (sigBytes n.integer n.fraction)) := by
@@ -104,7 +104,51 @@ theorem litFrac_plain (r : Nat) (c : Cfg) (hr : c.mantissaRadix = r) (n : Number
   have hfl : (numberLit c n).fracDigits.length = (n.fraction.getD []).length := by
     rw [hs.fracDigits, dv_length]
   have hE : (numberLit c n).exp = n.explicitExp := rfl
-  rw [litFrac_eq, hD, hfl, hE]
+  rw [C05Number.litFrac_eq2, hD, hfl, hE]
+
+/-! ## the exponent bases of a power-of-two radix -/
+
+/-- the (mantissa radix, exponent base) pairs the code supports, with `k = log(radix)/log(base)`: equal bases, and the
+five mixed pairs 4/2, 8/2, 16/2, 32/2, 16/4 -/
+inductive BasePair : Nat → Nat → Nat → Prop
+  | same (r : Nat) : BasePair r r 1
+  | r4b2 : BasePair 4 2 2
+  | r8b2 : BasePair 8 2 3
+  | r16b2 : BasePair 16 2 4
+  | r32b2 : BasePair 32 2 5
+  | r16b4 : BasePair 16 4 2
+
+theorem BasePair.pow {r b k : Nat} (h : BasePair r b k) : r = b ^ k := by
+  cases h <;> simp
+
+theorem BasePair.k5 {r b k : Nat} (h : BasePair r b k) : k ≤ 5 := by
+  cases h <;> omega
+
+theorem BasePair.k1 {r b k : Nat} (h : BasePair r b k) : 1 ≤ k := by
+  cases h <;> omega
+
+theorem BasePair.isPow2 {r b k : Nat} (h : BasePair r b k) (hr : IsPow2 r) : IsPow2 b := by
+  cases h
+  · exact hr
+  all_goals (unfold IsPow2; decide)
+
+theorem BasePair.scale (c : Cfg) {k : Nat} (h : BasePair c.mantissaRadix c.exponentBase k) (x : Int) :
+    LexVerif.Proof.Sep.scaleVal c x = x * k := by
+  generalize hr : c.mantissaRadix = r at h
+  generalize hb : c.exponentBase = b at h
+  unfold LexVerif.Proof.Sep.scaleVal
+  cases h
+  · rw [if_pos (by rw [hr, hb])]; simp
+  · rw [if_neg (by rw [hr, hb]; decide), hr, hb]; simp [log2Radix]
+  · rw [if_neg (by rw [hr, hb]; decide), hr, hb]; simp [log2Radix]
+  · rw [if_neg (by rw [hr, hb]; decide), hr, hb]; simp [log2Radix]
+  · rw [if_neg (by rw [hr, hb]; decide), hr, hb]; simp [log2Radix]
+  · rw [if_neg (by rw [hr, hb]; decide), hr, hb]
+    simp only [log2Radix]
+    have : x * ((4 : Nat) : Int) = x * 2 * 2 := by push_cast; ring
+    simp
+    have e : x * 4 = x * 2 * 2 := by ring
+    rw [e, Int.mul_tdiv_cancel _ (by decide)]
 
 /-! ## `u64_step` of the syntax layer and of the tables -/
 
@@ -193,12 +237,16 @@ theorem syntaxFacts_generic (feats : Features) (fmt : Format) (G : GenericClass 
     have h' : feats.powerOfTwo = false := h
     rw [this] at h'; cases h'
   have hdp := C05Number.dp_not_digit_r feats fmt o hval
+  have hsc1 : ∀ x : Int, LexVerif.Proof.Sep.scaleVal ⟨feats, fmt, false⟩ x = x * (1 : Nat) := by
+    intro x; rw [C01Number.scaleVal_same_base ⟨feats, fmt, false⟩ hbase.symm]; simp
   refine ⟨fun hmany => ?_, fun _ hpw => absurd hpw hnp, fun hmany _ => ?_⟩
   · obtain ⟨hx, _, _⟩ := C05Number.number_exact_of_syntax_r fmt.mantissaRadix _ h2 hstp1 hfit ⟨feats, fmt, false⟩ hstep hr8 rfl
-      hclass rfl hbase o hdp isPartial s fv h256 hlen n cnt hp hmany
+      hclass rfl fmt.mantissaRadix 1 (by decide) (by simp) hbase hsc1 o hdp isPartial s fv h256 hlen n cnt hp hmany
     exact ⟨hx, fun hpw => absurd hpw hnp⟩
   · obtain ⟨hs, hN, hw, hw1, hwlt, hq, _, _, _, _⟩ := C05Number.number_truncated_of_syntax_r fmt.mantissaRadix _ h2 hstp1 hfit
-      ⟨feats, fmt, false⟩ hstep hr8 rfl hclass rfl hbase o hdp isPartial s fv h256 hlen n cnt hp hmany
+      ⟨feats, fmt, false⟩ hstep hr8 rfl hclass rfl fmt.mantissaRadix 1 (by decide) (by simp) hbase hsc1 o hdp isPartial s fv h256 hlen n cnt hp hmany
+    have hq : n.exponent = ((sigBytes n.integer n.fraction).length : Int) - (u64StepTable.getD (fmt.mantissaRadix - 2) 1 : Nat) +
+        n.explicitExp - ((n.fraction.getD []).length : Int) := by rw [hq]; push_cast; ring
     refine ⟨by omega, ?_, ?_⟩
     · by_cases h : fmt.mantissaRadix = 31
       · exact h31 h hmany
@@ -208,13 +256,13 @@ theorem syntaxFacts_generic (feats : Features) (fmt : Format) (G : GenericClass 
       rw [hb']
       exact this
 
-/-! ## `SyntaxFacts`, power-of-two radices with the same exponent base -/
+/-! ## `SyntaxFacts`, power-of-two radices: same exponent base and the five mixed-base pairs -/
 
 open LexVerif.Proof.SlowBinary in
-/-- **`SyntaxFacts` for a power-of-two radix with exponent base = radix**; `hexp`: the exponent word is inside `±2^27`
-(the range `binary` is proved for; an explicit exponent of the input can exceed it) -/
+/-- **`SyntaxFacts` for a power-of-two radix with any supported exponent base** (`BasePair`: the radix itself, or the mixed
+pairs 4/2, 8/2, 16/2, 32/2, 16/4); `hexp`: the exponent word is inside `±2^27` (the range `binary` is proved for) -/
 theorem syntaxFacts_pow2 (feats : Features) (fmt : Format) (hpf : feats.powerOfTwo = true)
-    (hpw : IsPow2 fmt.mantissaRadix) (hbase : fmt.exponentBase = fmt.mantissaRadix)
+    (hpw : IsPow2 fmt.mantissaRadix) {k : Nat} (hpair : BasePair fmt.mantissaRadix fmt.exponentBase k)
     (hclass : feats.format = false ∨ C12.SepPrefixFree fmt) (o : POpts)
     (hval : isValidOptionsPunctuation feats fmt o.exp o.dp = true) (isPartial : Bool) (s : List Nat) (fv : Bool)
     (h256 : ∀ x ∈ s, x < 256) (hlen : s.length < 2 ^ 60) (n : Number) (cnt : Nat)
@@ -229,21 +277,24 @@ theorem syntaxFacts_pow2 (feats : Features) (fmt : Format) (hpf : feats.powerOfT
     have h' : feats.powerOfTwo = false := h
     rw [hpf] at h'; cases h'
   have hdp := C05Number.dp_not_digit_r feats fmt o hval
+  have hsc : ∀ x : Int, LexVerif.Proof.Sep.scaleVal ⟨feats, fmt, false⟩ x = x * k :=
+    BasePair.scale ⟨feats, fmt, false⟩ hpair
+  have hrk := hpair.pow
   refine ⟨fun hmany => ?_, fun hmany _ => ?_, fun _ G => absurd hpw (generic_not_isPow2 G.mem)⟩
   · obtain ⟨hx, _, _⟩ := C05Number.number_exact_of_syntax_r fmt.mantissaRadix _ h2 hstp1 hfit ⟨feats, fmt, false⟩ hstep hr8 rfl
-      hclass rfl hbase o hdp isPartial s fv h256 hlen n cnt hp hmany
+      hclass rfl fmt.exponentBase k hpair.k5 hrk rfl hsc o hdp isPartial s fv h256 hlen n cnt hp hmany
     exact ⟨hx, fun _ => hexp⟩
   · obtain ⟨hs, hN, hw, hw1, hwlt, hq, _, _, _, _⟩ := C05Number.number_truncated_of_syntax_r fmt.mantissaRadix _ h2 hstp1 hfit
-      ⟨feats, fmt, false⟩ hstep hr8 rfl hclass rfl hbase o hdp isPartial s fv h256 hlen n cnt hp hmany
+      ⟨feats, fmt, false⟩ hstep hr8 rfl hclass rfl fmt.exponentBase k hpair.k5 hrk rfl hsc o hdp isPartial s fv h256 hlen n cnt hp hmany
     have hbs : ∀ x ∈ sigBytes n.integer n.fraction, x < 256 := by
       intro x hx
       rcases mem_sigBytes hx with h | ⟨fr, hfr, h⟩
       · exact hs.bytesInt x h
       · exact hs.bytesFrac fr hfr x h
     have hsd := sigDigits_eq fmt.mantissaRadix n.integer n.fraction hbs
-    have hV := litFrac_plain fmt.mantissaRadix ⟨feats, fmt, false⟩ rfl n hs
+    have hV := litFrac_plain fmt.mantissaRadix fmt.exponentBase ⟨feats, fmt, false⟩ rfl n hs
     have hr' : (⟨feats, fmt, false⟩ : Cfg).mantissaRadix = fmt.mantissaRadix := rfl
-    have hb' : (⟨feats, fmt, false⟩ : Cfg).exponentBase = fmt.mantissaRadix := hbase
+    have hb' : (⟨feats, fmt, false⟩ : Cfg).exponentBase = fmt.exponentBase := rfl
     have hf' : (⟨feats, fmt, false⟩ : Cfg).feats = feats := rfl
     constructor
     · exact hexp
@@ -269,13 +320,18 @@ theorem syntaxFacts_pow2 (feats : Features) (fmt : Format) (hpf : feats.powerOfT
       generalize ofDigits fmt.mantissaRadix (dv fmt.mantissaRadix (sigBytes n.integer n.fraction)) = S
       generalize (sigBytes n.integer n.fraction).length = N at *
       generalize (n.fraction.getD []).length = fl at *
-      generalize fmt.mantissaRadix = r at *
-      have hexpo : n.explicitExp.toNat + ((-n.exponent).toNat + (N - stp)) =
-          n.exponent.toNat + (fl + (-n.explicitExp).toNat) := by omega
-      calc S * r ^ n.explicitExp.toNat * (r ^ (-n.exponent).toNat * r ^ (N - stp))
-          = S * r ^ (n.explicitExp.toNat + ((-n.exponent).toNat + (N - stp))) := by
+      generalize fmt.exponentBase = b at *
+      rw [hrk, ← Nat.pow_mul, ← Nat.pow_mul]
+      have hq' : n.exponent = ((k * (N - stp) : Nat) : Int) - ((k * fl : Nat) : Int) + n.explicitExp := by
+        rw [hq]; push_cast [Nat.cast_sub (Nat.le_of_lt hN)]; ring
+      generalize k * (N - stp) = T1 at *
+      generalize k * fl = T2 at *
+      have hexpo : n.explicitExp.toNat + ((-n.exponent).toNat + T1) =
+          n.exponent.toNat + (T2 + (-n.explicitExp).toNat) := by omega
+      calc S * b ^ n.explicitExp.toNat * (b ^ (-n.exponent).toNat * b ^ T1)
+          = S * b ^ (n.explicitExp.toNat + ((-n.exponent).toNat + T1)) := by
             rw [Nat.pow_add, Nat.pow_add]; ring
-        _ = S * r ^ n.exponent.toNat * (r ^ fl * r ^ (-n.explicitExp).toNat) := by
+        _ = S * b ^ n.exponent.toNat * (b ^ T2 * b ^ (-n.explicitExp).toNat) := by
             rw [hexpo, Nat.pow_add, Nat.pow_add]; ring
 
 /-! ## API level -/
@@ -301,11 +357,12 @@ theorem C05_generic_main (feats : Features) (fmt : Format) (G : GenericClass ⟨
     (syntaxFacts_generic feats fmt G hfeat hclass o hval isPartial s _ h256 hlen n cnt hp (fun h => h31 h n cnt hp))
     (fun _ => hslow n cnt hp)
 
-/-- **`C05_pow2_main`** — power-of-two radices (2, 4, 8, 16, 32) with exponent base = radix, every `power-of-two` build:
+/-- **`C05_pow2_main`** — power-of-two radices (2, 4, 8, 16, 32) with every supported exponent base (`BasePair`: the radix
+itself and the five mixed pairs 4/2, 8/2, 16/2, 32/2, 16/4 — hex floats with a binary exponent), every `power-of-two` build:
 **no slow-path hypothesis** (`binary` / `slow_binary` are proved); what remains, per `Number` of the input: `hexp`, the
 exponent word inside `±2^27`. -/
 theorem C05_pow2_main (feats : Features) (fmt : Format) (hpf : feats.powerOfTwo = true)
-    (hpw : IsPow2 fmt.mantissaRadix) (hbase : fmt.exponentBase = fmt.mantissaRadix)
+    (hpw : IsPow2 fmt.mantissaRadix) {k : Nat} (hpair : BasePair fmt.mantissaRadix fmt.exponentBase k)
     (hclass : feats.format = false ∨ C12.SepPrefixFree fmt)
     (o : POpts) {F : FTy} (hF : IsLemireFloat F) (isPartial : Bool) (s : List Nat)
     (h256 : ∀ x ∈ s, x < 256) (hlen : s.length < 2 ^ 60)
@@ -314,11 +371,9 @@ theorem C05_pow2_main (feats : Features) (fmt : Format) (hpf : feats.powerOfTwo 
     parseFloatAlgoModel slowModel feats fmt o isPartial F s = parseFloatModel feats fmt o isPartial F.fmt s := by
   apply C01Final.parseFloatAlgoModel_eq_valid
   intro hval n cnt hp
-  have hb2 : IsPow2 (⟨feats, fmt, false⟩ : Cfg).exponentBase := by
-    have : (⟨feats, fmt, false⟩ : Cfg).exponentBase = fmt.mantissaRadix := hbase
-    rw [this]; exact hpw
+  have hb2 : IsPow2 (⟨feats, fmt, false⟩ : Cfg).exponentBase := hpair.isPow2 hpw
   exact numberToFloat_radix slowModel hF ⟨feats, fmt, false⟩ (.pow2 hpf hpw hb2) n
-    (syntaxFacts_pow2 feats fmt hpf hpw hbase hclass o hval isPartial s _ h256 hlen n cnt hp (hexp n cnt hp))
+    (syntaxFacts_pow2 feats fmt hpf hpw hpair hclass o hval isPartial s _ h256 hlen n cnt hp (hexp n cnt hp))
     (fun G => absurd hpw (generic_not_isPow2 G.mem))
 
 /-- non-vacuity: the hexadecimal format (exponent base 16) of a `power-of-two` build; the radix-3 format of a `radix` build -/
@@ -329,7 +384,22 @@ example (s : List Nat) (h256 : ∀ x ∈ s, x < 256) (hlen : s.length < 2 ^ 60)
     parseFloatAlgoModel slowModel { powerOfTwo := true } ⟨0x0a10100000000000000000000000000c⟩ {} false FTy.f64 s =
       parseFloatModel { powerOfTwo := true } ⟨0x0a10100000000000000000000000000c⟩ {} false f64 s :=
   C05_pow2_main { powerOfTwo := true } ⟨0x0a10100000000000000000000000000c⟩ rfl
-    (by unfold IsPow2; decide) (by decide) (Or.inl rfl) {} (Or.inl rfl) false s h256 hlen hexp
+    (by unfold IsPow2; decide) (BasePair.same 16) (Or.inl rfl) {} (Or.inl rfl) false s h256 hlen hexp
+
+/-- non-vacuity for a mixed-base pair: hexadecimal digits with a binary exponent (hex floats) -/
+example (s : List Nat) (h256 : ∀ x ∈ s, x < 256) (hlen : s.length < 2 ^ 60)
+    (hexp : ∀ n cnt, parseFloatSyntax ⟨{ powerOfTwo := true }, ⟨0x0a02100000000000000000000000000c⟩, false⟩ {} false s
+      (formatError { powerOfTwo := true } ⟨0x0a02100000000000000000000000000c⟩).isNone = .ok (.number n cnt) →
+      ExpInRange n.exponent) :
+    parseFloatAlgoModel slowModel { powerOfTwo := true } ⟨0x0a02100000000000000000000000000c⟩ {} false FTy.f64 s =
+      parseFloatModel { powerOfTwo := true } ⟨0x0a02100000000000000000000000000c⟩ {} false f64 s :=
+  C05_pow2_main { powerOfTwo := true } ⟨0x0a02100000000000000000000000000c⟩ rfl
+    (by unfold IsPow2; decide) (k := 4)
+    (by
+      have h1 : (⟨0x0a02100000000000000000000000000c⟩ : Format).mantissaRadix = 16 := by decide
+      have h2 : (⟨0x0a02100000000000000000000000000c⟩ : Format).exponentBase = 2 := by decide
+      rw [h1, h2]; exact .r16b2)
+    (Or.inl rfl) {} (Or.inl rfl) false s h256 hlen hexp
 
 example : GenericClass ⟨{ powerOfTwo := true, radix := true }, ⟨0x0303030000000000000000000000000c⟩, false⟩ :=
   ⟨rfl, by decide, by decide⟩
